@@ -51,7 +51,50 @@ type Case struct {
 	Shape   string   `json:"shape,omitempty"` // informative (label only): the shape the first connects of a large-universe history build
 	Scale   string   `json:"scale,omitempty"` // informative (label only), scale histories: the count that is driven to a threshold-adjacent value
 	Build   string   `json:"build,omitempty"` // informative (label only), scale histories: how the bulk is built
+	Cfg     *Cfg     `json:"cfg,omitempty"` // configuration / environment of the teamserver (nil = the fixture's default)
 	Ops     []Op     `json:"ops"`
+}
+
+// Cfg: the options of the profile and of the environment that the teamserver reads on the
+// paths of this property.  None of them may change the graph: the oracle is the same under all.
+type Cfg struct {
+	pvx.Options            // webhook, operators, connected, service
+	TZ          string `json:"tz,omitempty"`       // time.Local during the case: "" (untouched), "UTC", "+05:30", "-08:00", "+12:00", "+14:00"
+	KillDate    string `json:"killdate,omitempty"` // KillDate in every agent's DEMON_INIT: "" (0), "past", "future"
+	Hours       bool   `json:"hours,omitempty"`    // WorkingHours set in every agent's DEMON_INIT
+	Marker      int    `json:"marker,omitempty"`   // which operator of the profile marks agents dead / alive (rotating from this index)
+}
+
+func (c Case) meta(i int, id uint32) demonref.MetaData {
+	m := metaOf(i, id)
+	if c.Cfg != nil {
+		switch c.Cfg.KillDate {
+		case "past":
+			m.KillDate = 1577836800 // 2020-01-01
+		case "future":
+			m.KillDate = 4102444800 // 2100-01-01
+		}
+		if c.Cfg.Hours {
+			m.WorkingHours = 1<<22 | 9<<17 | 0<<11 | 17<<6 | 30 // enabled, 09:00 - 17:30 (Demon config packing)
+		}
+	}
+	return m
+}
+
+func zoneOf(tz string) *time.Location {
+	switch tz {
+	case "UTC":
+		return time.UTC
+	case "+05:30":
+		return time.FixedZone("IST", 5*3600+1800)
+	case "-08:00":
+		return time.FixedZone("PST", -8*3600)
+	case "+12:00":
+		return time.FixedZone("NZST", 12*3600)
+	case "+14:00":
+		return time.FixedZone("LINT", 14*3600)
+	}
+	return nil
 }
 
 func (c Case) dbMode() string {
@@ -412,6 +455,24 @@ func runCase(c Case, mode string) *core.Violation {
 		panic("harness: " + err.Error())
 	}
 	defer w.Close()
+	users := []string{"op"}
+	if c.Cfg != nil {
+		if err := w.Configure(c.Cfg.Options); err != nil {
+			panic("harness: " + err.Error())
+		}
+		users = w.Users()
+		if loc := zoneOf(c.Cfg.TZ); loc != nil {
+			old := time.Local
+			time.Local = loc
+			defer func() { time.Local = old }()
+		}
+	}
+	marker := func(step int) string {
+		if c.Cfg == nil {
+			return users[0]
+		}
+		return users[(c.Cfg.Marker+step)%len(users)]
+	}
 
 	released := false
 	release := func() { // after a hang: break every Parent pointer so that the spinning goroutine ends
@@ -435,7 +496,7 @@ func runCase(c Case, mode string) *core.Violation {
 			continue
 		}
 		k, iv := keyOf(i)
-		if !w.Register(c.IDs[i], k, iv, metaOf(i, c.IDs[i])) {
+		if !w.Register(c.IDs[i], k, iv, c.meta(i, c.IDs[i])) {
 			panic(fmt.Sprintf("harness: initial registration of %08x not acknowledged", c.IDs[i]))
 		}
 	}
@@ -578,7 +639,7 @@ func runCase(c Case, mode string) *core.Violation {
 					return nil
 				}
 				k, iv := keyOf(op.A)
-				if !w.Register(actorID, k, iv, metaOf(op.A, actorID)) {
+				if !w.Register(actorID, k, iv, c.meta(op.A, actorID)) {
 					return core.V("harness|registration-not-acknowledged", "DEMON_INIT of %08x was not acknowledged", actorID)
 				}
 			case "connect":
@@ -588,7 +649,7 @@ func runCase(c Case, mode string) *core.Violation {
 					cid, ci = c.IDs[op.B], op.B
 				}
 				k, iv := keyOf(ci)
-				w.Callback(actor, 0, pvx.CmdPivot, pvx.ConnectBody(metaOf(ci, cid).InitPackage(cid, k, iv)))
+				w.Callback(actor, 0, pvx.CmdPivot, pvx.ConnectBody(c.meta(ci, cid).InitPackage(cid, k, iv)))
 			case "connectfail":
 				w.Callback(actor, 0, pvx.CmdPivot, pvx.ConnectFailBody(2))
 			case "disconnect":
@@ -602,9 +663,18 @@ func runCase(c Case, mode string) *core.Violation {
 				pvx.Outstanding(actor, reqID, pvx.CmdKillDate)
 				w.Callback(actor, reqID, pvx.CmdKillDate, nil)
 			case "markdead":
-				w.Mark(actor.NameID, "Dead")
+				w.MarkAs(marker(step), actor.NameID, "Dead")
 			case "markalive":
-				w.Mark(actor.NameID, "Alive")
+				w.MarkAs(marker(step), actor.NameID, "Alive")
+			case "connectforeign": // the child's package carries the magic of a third-party type, not the Demon's
+				cid, ci := uint32(unknownID), len(c.IDs)
+				if op.B >= 0 && op.B < len(c.IDs) {
+					cid, ci = c.IDs[op.B], op.B
+				}
+				k, iv := keyOf(ci)
+				e := demonref.Header(pvx.ServiceMagic, cid, demonref.CmdInit, 0)
+				e.Pad(c.meta(ci, cid).InitBody(k, iv, true))
+				w.Callback(actor, 0, pvx.CmdPivot, pvx.ConnectBody(demonref.Finish(e.B)))
 			}
 			return nil
 		})
@@ -680,7 +750,7 @@ func bulkEvent(w *pvx.World, c Case, op Op, actor *agent.Agent) *core.Violation 
 		}
 		return core.WithWatchdog(stepBudget, "event:reg", func() *core.Violation {
 			k, iv := keyOf(op.A)
-			if !w.Register(actorID, k, iv, metaOf(op.A, actorID)) {
+			if !w.Register(actorID, k, iv, c.meta(op.A, actorID)) {
 				return core.V("harness|registration-not-acknowledged", "DEMON_INIT of %08x was not acknowledged", actorID)
 			}
 			return nil
@@ -710,7 +780,7 @@ func bulkEvent(w *pvx.World, c Case, op Op, actor *agent.Agent) *core.Violation 
 	}
 	v := core.WithWatchdog(stepBudget, "event:"+class, func() *core.Violation {
 		k, iv := keyOf(ci)
-		w.Callback(actor, 0, pvx.CmdPivot, pvx.ConnectBody(metaOf(ci, cid).InitPackage(cid, k, iv)))
+		w.Callback(actor, 0, pvx.CmdPivot, pvx.ConnectBody(c.meta(ci, cid).InitPackage(cid, k, iv)))
 		return nil
 	})
 	if v != nil || above {
@@ -737,6 +807,7 @@ type model struct {
 	cut    map[int]bool // detached by a disconnect of its parent and not linked again since
 	rows   map[int]int  // TS_Links as the unchanged tree keeps it: child -> stored parent (survives restarts)
 	gone   map[int]bool // known once, not restored by a restart since
+	why    map[int]string // why an agent in memory is inactive: markdead | killdate | exit | disconnected (label only)
 }
 
 // orphanOf: x is in memory without a parent while a stored row still names one; the stored
@@ -776,7 +847,7 @@ func (m *model) inner() []int {
 }
 
 func newModel(c Case) *model {
-	m := &model{n: len(c.IDs), known: map[int]bool{}, parent: map[int]int{}, active: map[int]bool{}, cut: map[int]bool{}, rows: map[int]int{}, gone: map[int]bool{}}
+	m := &model{n: len(c.IDs), known: map[int]bool{}, parent: map[int]int{}, active: map[int]bool{}, cut: map[int]bool{}, rows: map[int]int{}, gone: map[int]bool{}, why: map[int]string{}}
 	for _, i := range c.Init {
 		if i >= 0 && i < len(c.IDs) {
 			m.known[i] = true
@@ -922,6 +993,11 @@ type summary struct {
 	reconn     map[int]int // accepted connects naming an agent that was already known, per agent
 	maxReconn  int
 	ancMaxDist int // greatest distance of an attempted cyclic connect
+	// connects reported by a session that is in memory but inactive (marked dead by an operator, kill
+	// date reached, exit received, disconnected by its parent / by the death of its parent)
+	inactNew, inactKnown, inactCyclic int
+	inactWhy                          map[string]int
+	foreign                           int // connects whose child package carries the magic of a third-party type
 }
 
 // step applies one event of the history to the model and records it in s.
@@ -1094,6 +1170,20 @@ func (m *model) step(op Op, s *summary) {
 				s.maxReconn = s.reconn[b]
 			}
 		}
+		if !m.active[op.A] {
+			switch cl {
+			case "connect-new":
+				s.inactNew++
+			case "connect-self", "connect-ancestor":
+				s.inactCyclic++
+			default:
+				s.inactKnown++
+			}
+			if s.inactWhy == nil {
+				s.inactWhy = map[string]int{}
+			}
+			s.inactWhy[m.why[op.A]]++
+		}
 		nl := m.nlinks(op.A)
 		if nl >= 2 {
 			s.secondLink = true
@@ -1126,6 +1216,7 @@ func (m *model) step(op Op, s *summary) {
 				delete(m.rows, b)
 			}
 			m.active[b] = false // LinkRemove marks the named agent "Disconnected" either way
+			m.why[b] = "disconnected"
 		}
 	case "exit", "killdate", "markdead":
 		n := m.nlinks(op.A)
@@ -1143,6 +1234,7 @@ func (m *model) step(op Op, s *summary) {
 		}
 		delete(m.parent, op.A)
 		m.active[op.A] = false
+		m.why[op.A] = op.K
 		for ch, p := range m.parent {
 			if p == op.A {
 				delete(m.parent, ch)
@@ -1150,10 +1242,13 @@ func (m *model) step(op Op, s *summary) {
 					delete(m.rows, ch)
 				}
 				m.active[ch] = false
+				m.why[ch] = "disconnected"
 			}
 		}
 	case "markalive":
 		m.active[op.A] = true
+	case "connectforeign":
+		s.foreign++
 	}
 	s.classes[cl]++
 }
@@ -1261,6 +1356,8 @@ func classify(c Case) core.Class {
 		lb = "4-12"
 	}
 	cl.Labels = append(cl.Labels, "effective-events:"+lb)
+	cl.Labels = append(cl.Labels, cfgLabels(c)...)
+	cl.Labels = append(cl.Labels, inactiveLabels(s)...)
 	cl.NonTrivial = s.secondLink || s.reparent || s.selfc || s.ancc
 	cl.Fingerprint = fmt.Sprintf("2nd=%v|reparent=%v|self=%v|anc=%v|deathlinks=%s|childdeath=%v|len=%s|disc=%v|reopen=%v", s.secondLink, s.reparent, s.selfc, s.ancc, dl, s.deathWithParent, lb, s.classes["disconnect-child"] > 0, s.reopens > 0)
 	if s.maxDepth > 4 || s.ancFar {
